@@ -693,3 +693,111 @@ def rule_exists_parens(ctx):
               "existential_parameter prints %s without the grammar's parentheses and delimits %s (scrutinee %s); expected bare = {Ann, Manifest} "
               "over transparent_pattern_group(binder)" % (sorted(bare), sorted(delimited), scr[:80]), loc,
               detail={"bare": sorted(bare), "delimited": sorted(delimited)})
+
+
+# ---------------------------------------------------------------------------------------------------------------------
+# comment capture: which of several entities with one source range owns a comment
+# ---------------------------------------------------------------------------------------------------------------------
+COMMENT = "zydeco_surface::textual::trivia::comment::"
+
+
+def _key_components(facts, fn, depth=0):
+    """flatten the tuple a key function returns into [(component, reversed?)]; calls to sibling key helpers are expanded"""
+    h = facts.hir(fn)
+    if h is None or depth > 3:
+        return None
+    body = H.peel(h["body"])
+    while H.kind(body) == "Block" and body.get("expr") is not None and not body.get("stmts"):
+        body = H.peel(body["expr"])
+
+    def comp(e, rev):
+        e = H.peel(e)
+        k = H.kind(e)
+        if k == "Tup":
+            out = []
+            for x in e["es"]:
+                out.extend(comp(x, rev))
+            return out
+        if k == "Call" and (H.callee(e) or "").endswith("cmp::Reverse"):
+            return comp(e["args"][0], not rev)
+        if k == "MethodCall":
+            c = e.get("fn") or ""
+            if c.startswith(COMMENT + "SpannedEntity::") and c.split("::")[-1] not in ("start", "end", "entity", "nesting_rank"):
+                sub = _key_components(facts, c, depth + 1)
+                if sub is not None:
+                    return [(n, r != rev) for n, r in sub]
+            return [(e["name"], rev)]
+        if k == "Field":
+            return [(e["name"], rev)]
+        return [(k, rev)]
+    return comp(body, False)
+
+
+def rule_capture_anchors(ctx):
+    rule = "capture-anchors"
+    facts = ctx.facts
+    ctx.rule(rule, "a comment before code is filed under the entity chosen by min_by_key(leading_key), a comment after all code under "
+                   "max_by_key(trailing_key). With the selector's direction and every `Reverse` taken into account, both choose the "
+                   "WIDEST entity and, among entities with one source range, the highest nesting rank and the latest allocated (the "
+                   "enclosing one): the printer emits a comment only when it prints the entity that owns it, and only the outermost of "
+                   "several same-range entities is ever asked for its trailing comments")
+    want = {
+        "leading": ("min_by_key", {"start": -1, "end": +1, "nesting_rank": +1, "entity": +1}),
+        "trailing": ("max_by_key", {"end": +1, "start": -1, "nesting_rank": +1, "entity": +1}),
+    }
+    for which, (selector, polar) in want.items():
+        keyfn = COMMENT + "SpannedEntity::%s_key" % which
+        anchor = COMMENT + "CommentCapture::%s_anchor" % which
+        if keyfn not in facts.bodies() or anchor not in facts.bodies():
+            ctx.anchor_lost(rule, "%s / %s not found" % (keyfn, anchor))
+            continue
+        comps = _key_components(facts, keyfn)
+        h = ctx.need_hir(rule, anchor)
+        sel = [n["name"] for n in H.walk(h["body"]) if H.kind(n) == "MethodCall" and n["name"] in ("min_by_key", "max_by_key", "min_by", "max_by", "min", "max")]
+        uses_key = any((c or "").endswith("%s_key" % which) for _, c in H.calls(h["body"]))
+        sign = -1 if sel == ["min_by_key"] else +1 if sel == ["max_by_key"] else 0
+        got = {n: sign * (-1 if r else +1) for n, r in (comps or [])}
+        order = [n for n, _ in (comps or [])]
+        ok = uses_key and sign != 0 and got == polar and order == list(polar)
+        ctx.check(ok, rule, "%s:polarity" % which, "%s_anchor selects with %s over %s (effective preference %s); expected %s over the "
+                  "components %s with preference %s: among entities with the same range the inner one would own the comment and the "
+                  "printer, which asks only the outer one, never emits it" % (which, sel, comps, got, selector, list(polar), polar),
+                  facts.bodies()[keyfn]["loc"], detail={"anchor": which, "selector": sel, "preference": got})
+    fn = COMMENT + "SpannedEntity::nesting_rank"
+    if fn in facts.bodies():
+        t = _arm_table(ctx, rule, fn, lambda a, h: (H.peel(a["body"]).get("lit") or {}).get("int"))
+        ctx.check(t == {"Def": "0", "Pat": "1", "CoPat": "2", "Term": "3"}, rule, "nesting-rank", "nesting_rank is %s" % t,
+                  facts.bodies()[fn]["loc"], detail={"rank": t})
+
+
+def rule_transparent_groups(ctx):
+    rule = "transparent-groups"
+    facts = ctx.facts
+    ctx.rule(rule, "a helper that looks through a parenthesis group the printer elides (transparent_*_group) peels a layer only when that "
+                   "layer has no leading comments; pun recognition is asked about the written payload or about such a helper's result: "
+                   "the pun fast path prints the field name only, so a comment on a peeled layer would never be emitted")
+    helpers = [p for p in facts.bodies() if re.search(r"PrettyFormatter::<'arena>::transparent_\w+_group$", p)]
+    ctx.floor(rule, "transparent-group helpers", len(helpers), 1)
+    for fn in sorted(helpers):
+        h = ctx.need_hir(rule, fn)
+        cs = [c.split("::")[-1] for _, c in H.calls(h["body"])]
+        ok = "leading_comments" in cs and "is_empty" in cs
+        ctx.check(ok, rule, "%s:comment-free" % fn.split("::")[-1], "%s peels a group without testing that it carries no leading comments (%s)"
+                  % (fn.split("::")[-1], cs), facts.bodies()[fn]["loc"], detail={"helper": fn.split("::")[-1]})
+    n = 0
+    for p, bd in sorted(facts.bodies().items()):
+        if not p.startswith(FORMATTER) or "{closure" in p:
+            continue
+        h = facts.hir(p)
+        if h is None:
+            continue
+        env = A.ArmEnv(); env.strip = True; env.bind_params(h); env.absorb(h["body"])
+        for node in H.walk(h["body"]):
+            if H.kind(node) == "MethodCall" and node["name"] in ("term_payload", "pattern_payload"):
+                n += 1
+                arg = A.sexpr(node["args"][1], env)
+                ok = re.match(r"^\$P\d+$", arg) is not None or re.match(r"^\(%stransparent_\w+_group \$P0 " % re.escape(FORMATTER), arg) is not None \
+                    or re.search(r"/\w+\.\w+$|^\(\. ", arg) is not None
+                ctx.check(ok, rule, "%s:%s" % (p.split("::")[-1], node["name"]), "%s asks the pun recogniser about %s" % (p.split("::")[-1], arg[:100]),
+                          [bd["loc"][0], node.get("ln")], detail={"fn": p.split("::")[-1], "payload": arg[:60]})
+    ctx.floor(rule, "pun recognition sites", n, 3)
